@@ -78,7 +78,13 @@ def make_files(d: Path) -> dict:
     B2 = {"kw": {"elements": ["e", "H", "D"], "pseudo_elements": ["Photon", "CR"]},
           "files": [[str(d / "B3.naunet"), "naunet"]], "badfile": [str(d / "Bbad.naunet"), "naunet"], "allowed": ["H", "D", "HD", "H2"], "krome": False}
     (d / "B3.naunet").write_text("\n".join([native_line(1, ["D", "H2"], ["HD", "H"]), native_line(2, ["H", "Photon"], ["H+", "e-"], ty=102)]))
-    return {"elemonly": {"1": E1, "2": B2}, "custom": {"1": A, "2": B}, "mixed": {"1": A, "2": K2}, "mixedC": {"1": B, "2": C}, "none": {"1": K1, "2": K2}, "grain": {"1": G, "2": C}}
+    # ... the same in the upper-case convention: the identifiers (HE -> He) are computed from the element list AT RENDER TIME, so the lists of
+    # whichever network was built last show in the sources if rendering does not re-install this network's own
+    (d / "EU.naunet").write_text("\n".join([native_line(1, ["H", "H"], ["H2"]), native_line(2, ["HE+", "E-"], ["HE"]), native_line(3, ["H2", "HE+"], ["H", "H+", "HE"])]))
+    (d / "EU2.naunet").write_text("\n".join([native_line(4, ["HE++", "E-"], ["HE+"]), native_line(5, ["HE+", "HE+"], ["HE++", "HE"])]))
+    EU = {"kw": {"elements": ["E", "H", "HE"]}, "files": [[str(d / "EU.naunet"), "naunet"], [str(d / "EU2.naunet"), "naunet"]], "badfile": [str(d / "Abad.naunet"), "naunet"],
+          "allowed": ["H", "H2", "HE", "HE+", "E-", "H+"], "krome": False}
+    return {"elemonlyU": {"1": EU, "2": B}, "elemonly": {"1": E1, "2": B2}, "custom": {"1": A, "2": B}, "mixed": {"1": A, "2": K2}, "mixedC": {"1": B, "2": C}, "none": {"1": K1, "2": K2}, "grain": {"1": G, "2": C}}
 
 
 def concrete(last: list, nets: dict):
@@ -141,7 +147,7 @@ def main(ctx: Ctx) -> int:
     cov["states"], cov["transitions"] = states, trans
 
     files = make_files(ctx.sub("files"))
-    families = [("elemonly", "MC_Globals_custom.cfg"), ("custom", "MC_Globals_custom.cfg"), ("mixed", "MC_Globals_mixed_full.cfg"), ("mixedC", "MC_Globals_mixed_full.cfg"),
+    families = [("elemonlyU", "MC_Globals_custom.cfg"), ("elemonly", "MC_Globals_custom.cfg"), ("custom", "MC_Globals_custom.cfg"), ("mixed", "MC_Globals_mixed_full.cfg"), ("mixedC", "MC_Globals_mixed_full.cfg"),
                 ("none", "MC_Globals_none.cfg"), ("grain", "MC_Globals_none.cfg")]
     scenarios = []
     nsim = 10 if ctx.quick else 120
@@ -231,7 +237,7 @@ def main(ctx: Ctx) -> int:
     cov["fresh_process_references"] = len(refcache)
     # which Custom assignment each family's trace spec needs
     rejected_total = 0
-    for famset, custom in ((("custom", "elemonly"), "AllCustom"), (("mixed", "mixedC"), "Mixed"), (("none", "grain"), "NoneCustom")):
+    for famset, custom in ((("custom", "elemonly", "elemonlyU"), "AllCustom"), (("mixed", "mixedC"), "Mixed"), (("none", "grain"), "NoneCustom")):
         part = [t for t in traces if t["fam"] in famset]
         if not part:
             continue
